@@ -352,7 +352,7 @@ pub fn run_pool_variant(ctx: &Ctx) {
     let n = ctx.tier.pick(1_500, 30_000);
     ctx.run_prop(
         "tls-pool-segmented",
-        "2..6 generated hellos on distinct flows, each cut into generated segments (first segment >= 5 bytes), segments of the flows interleaved, dispatched to the TLS worker pool (1..8 workers, batch 1..32); oracle: exactly one result per flow, equal to the single-segment sequential result; non-trivial: >= 2 flows with >= 2 segments",
+        "2..6 generated hellos on distinct flows, each cut into generated segments (first segment >= 5 bytes), segments of the flows interleaved, dispatched to the TLS worker pool (1..8 workers, batch 1..32; in half of the runs with a connection budget equal to the number of flows); oracle: exactly one result per flow, equal to the single-segment sequential result; non-trivial: >= 2 flows with >= 2 segments",
         n,
         || (proptest::collection::vec((gt::hello(), proptest::collection::vec(any::<u16>(), 0..5)), 2..6), 1usize..9, 1usize..33, any::<u64>()),
         |(flows, workers, batch, seed): &(Vec<(Hello, Vec<u16>)>, usize, usize, u64), st: &mut Stats| {
@@ -393,7 +393,9 @@ pub fn run_pool_variant(ctx: &Ctx) {
                 frames.push(per_flow[k][idx[k]].clone());
                 idx[k] += 1;
             }
-            let cfg = PoolCfg { workers: *workers, queue: frames.len() + 8, batch: *batch, timeout_ms: 3, dispatchers: 1, perturb: Some(*seed), max_sleep_us: 100, max_conn: 1000 };
+            // half of the runs with a connection budget that holds exactly these flows (documented as a per-worker capacity)
+            let max_conn = if seed % 2 == 0 { per_flow.len() } else { 1000 };
+            let cfg = PoolCfg { workers: *workers, queue: frames.len() + 8, batch: *batch, timeout_ms: 3, dispatchers: 1, perturb: Some(*seed), max_sleep_us: 100, max_conn };
             let run = run_pool(PoolKind::Tls, &frames, &cfg, None, None).map_err(|e| fail!("pool:new", "{e}"))?;
             if let Some(p) = &run.worker_panic {
                 return Err(Fail::new(format!("pool:worker-{}", crate::engine::panic_key(p)), p.clone()));
